@@ -11,7 +11,7 @@ import compiles
 
 FAMS = ["conv_chain", "single", "unsupported", "mixed_cpu", "diamond", "lut_heavy", "conv_chain_big", "single", "unsupported",
         "ew_dag", "multi_custom", "weights_heavy", "multi_subgraph", "siamese", "siamese:big", "lut_mixed", "memcpy_reshape", "branchy",
-        "mixed_exact", "one_channel_tail", "narrowing_chain", "upscale_chain", "pow2_rescale", "multi_input", "split_conv", "lstm", "ew_chain", "concat_split"]
+        "mixed_exact", "one_channel_tail", "narrowing_chain", "upscale_chain", "pow2_rescale", "multi_input", "split_conv", "lstm", "ew_chain", "concat_split", "rewrite_patterns"]
 
 
 def classify(r):
